@@ -280,10 +280,19 @@ func SessionC04(t *tape.Tape) *core.RunResult {
 	sent := 0
 	var pendingGo *goSpec
 
+	// how eager this GUI is to send stop: an impatient one stops a search within a few steps, a patient one
+	// lets simulated time pass first (so that timers of this and of EARLIER searches get their chance)
+	patience := t.Choose(3)
+	wClock := []int{3, 6, 12}[patience]
 	gui := func() string {
 		// while a go is unanswered the polite GUI only sends isready / stop
 		if ob := g.open(); ob != nil {
-			switch t.Weighted([]int{6, 2, map[bool]int{true: 3, false: 1}[ob.needsStop]}) {
+			wStop := map[bool]int{true: 9, false: 3}[ob.needsStop]
+			wStop = []int{wStop, wStop / 3, wStop / 9}[patience]
+			if s.steps-ob.goStep > 150 {
+				wStop = 9 // even a patient GUI stops eventually
+			}
+			switch t.Weighted([]int{18, 6, wStop}) {
 			case 1:
 				g.isready++
 				return "isready"
@@ -363,8 +372,20 @@ func SessionC04(t *tape.Tape) *core.RunResult {
 		if sent >= nCmds && g.open() == nil && pendingGo == nil {
 			break
 		}
-		s.stepRandom(gui, 6, 3)
+		if ob := g.open(); ob != nil && ob.stopStep > 0 && s.steps-ob.stopStep > 300 {
+			break // told to stop long ago and still no answer: let the settle phase decide
+		}
+		s.stepRandom(gui, 6, wClock)
 		g.judge()
+		if ob, mt := g.open(), k.FindParked("mt"); ob != nil && !strings.Contains(ob.text, "movetime") && mt != nil && mt.Point == "timer.movetime" {
+			res.Probe("timer-of-an-earlier-go-fired-into-this-one")
+			if ob.needsStop {
+				res.Probe("stale-timer-fired-into-stop-only-search")
+			}
+			if ob.infinite {
+				res.Probe("stale-timer-fired-into-infinite-search")
+			}
+		}
 		for i := len(s.lines) - 1; i >= 0; i-- {
 			if strings.HasPrefix(s.lines[i].text, "bestmove ") {
 				lastBest = strings.Fields(s.lines[i].text)[1]
